@@ -5,6 +5,7 @@
   pkg/tarfs/tarfs.go by the correspondence run of `./check C11`.
 -/
 import ClairModel.Proofs.TarFS
+import ClairModel.Proofs.TarFSInv
 
 namespace ClairModel.Props.C11
 open ClairModel ClairModel.TarFS
@@ -16,6 +17,22 @@ open ClairModel ClairModel.TarFS
     stores went through normPath. -/
 theorem normPath_contained (p : Bytes) : validPath (normPath p) = true :=
   normPath_valid p
+
+/-- No escape: in the view New builds from any member list whatsoever, every
+    key of the lookup table, every stored member name and every stored target
+    of a symbolic or hard link is a contained name (`Contained k`: `k` is "."
+    or a relative path none of whose elements is empty, "." or ".."). Together
+    with the fact that paths are only ever resolved through the lookup table
+    and the children tables, no member name or link target can make the view
+    refer outside the archive root. -/
+theorem no_escape (ms : List Member) (fs : FS) (h : newFS ms = .ok fs) :
+    (∀ x ∈ fs.lookup, Contained x.1) ∧
+    (∀ n ∈ fs.inodes, Contained n.name ∧ ((n.kind = .sym ∨ n.kind = .link) → Contained n.link)) :=
+  ⟨(newFS_inv ms fs h).keys, (newFS_inv ms fs h).inos⟩
+
+/-- The same holds for every view obtained by Sub (to any depth). -/
+theorem no_escape_sub (fs fs' : FS) (dir : Bytes) (h : Inv fs) (hs : subFS fs dir = .ok fs') : Inv fs' :=
+  subFS_inv fs dir fs' h hs
 
 /-- Other repetition is rejected (1): a member that is not a regular file or
     hard link (a directory, symbolic link or special file) whose name is
